@@ -165,7 +165,7 @@ def find_last(p, d):
     return acc
 
 
-HEADER_WINDOW = 1020  # the header must lie within the first 1024 bytes
+HEADER_WINDOW = 1020  # the header must lie within the first 1024 bytes; 1 = offset 0 only
 
 
 def find_header(fuel, d):
